@@ -4,6 +4,7 @@
 
 use crate::conv::*;
 use crate::env::Env;
+use std::io::Write as _;
 use crate::gen::{self, AbsReq};
 use crate::model;
 use crate::report::Violation;
@@ -488,8 +489,10 @@ pub fn gen_c10(rng: &mut Rng, caseid: u64, unix: bool, bound_ms: u64) -> Gen {
                 // connection stays usable
             }
             3 => {
-                let l = *rng.pick(&["Foo bar", "Foobar", "NoColonHere value", "X-A", "Content-Length 5"]);
-                class_label = "header-no-colon".to_string();
+                // a line of nothing but whitespace is a header line without a colon too (it is not
+                // the empty line that ends the head)
+                let l = *rng.pick(&["Foo bar", "Foobar", "NoColonHere value", "X-A", "Content-Length 5", " ", "\t", "  \t ", "\r", "NoColon \t"]);
+                class_label = if l.trim().is_empty() { "header-no-colon-blank".to_string() } else { "header-no-colon".to_string() };
                 let before = if rng.chance(1, 2) { "Host: h\r\n" } else { "" };
                 let ver = *rng.pick(&["HTTP/1.1", "HTTP/1.1", "HTTP/1.0"]);
                 p.reqs.push(raw_wire(format!("{} {} {}\r\n{}{}\r\nAccept: */*\r\n\r\n", method, target, ver, before, l).into_bytes(), &class_label));
@@ -1057,6 +1060,39 @@ pub fn run_one(ctx: &Ctx, env: &Env, prop: &str, case_seed: u64, mode: &str) {
     }
 }
 
+/// History perturbation: a handful of earlier connections that died in the middle of a head line
+/// (closed or reset), opened together so that every idle worker thread has served one. Whatever
+/// state they leave behind must not leak into the conversation that follows.
+pub fn debris_burst(env: &Env, seed: u64) {
+    let mut rng = Rng::new(seed ^ 0xDEB215);
+    let k = rng.range(4, 9);
+    let head = b"GET /debris/partial HTTP/1.1\r\nHost: h\r\nX-Filler: aaaaaaaaaaaaaaaaaaaaaaaaaaaaaaaaaaaaaaaa\r\nContent-Length: 3\r\n\r\nabc";
+    let mut conns = Vec::new();
+    for _ in 0..k {
+        if let Ok(c) = crate::net::CStream::connect(&env.addr) {
+            conns.push(c);
+        }
+    }
+    for c in conns.iter_mut() {
+        // never a complete request: cut somewhere before the end of the head, often mid-line
+        let cut = match rng.below(4) {
+            0 => rng.range(1, 3),
+            1 => rng.range(1, 27),
+            _ => rng.range(1, head.len() - 8),
+        };
+        let _ = c.write_all(&head[..cut]);
+    }
+    crate::util::sleep_us(300);
+    for c in conns.into_iter() {
+        if rng.chance(1, 3) {
+            c.set_linger0();
+        }
+        drop(c);
+    }
+    // let the workers see the end of those connections
+    crate::util::sleep_us(1500);
+}
+
 pub fn run(ctx: &Ctx) {
     crate::env::install_fp_hook();
     crate::env::track_reads(true);
@@ -1066,6 +1102,9 @@ pub fn run(ctx: &Ctx) {
     if let Some((cs, mode, repeat)) = &ctx.replay {
         let env = Env::new(mode.starts_with("unix"), 1);
         for _ in 0..(*repeat).max(1) {
+            if mode.ends_with("+debris") {
+                debris_burst(&env, *cs);
+            }
             run_one(ctx, &env, &prop, *cs, mode);
         }
         return;
@@ -1081,7 +1120,13 @@ pub fn run(ctx: &Ctx) {
             env = Env::new(unix, 1);
         }
         let cs = ctx.case_seed(idx);
-        run_one(ctx, &env, &prop, cs, mode);
+        if cs % 16 == 3 {
+            debris_burst(&env, cs);
+            ctx.rep.inc("cases_after_a_burst_of_connections_cut_mid_head");
+            run_one(ctx, &env, &prop, cs, &format!("{}+debris", mode));
+        } else {
+            run_one(ctx, &env, &prop, cs, mode);
+        }
         env.cases_run += 1;
         idx += 1;
         if ctx.rep.n_violations() >= 12 {
